@@ -473,6 +473,64 @@ def Src.after (s : Src) (pos r : Nat) : SrcAfter :=
   | .fin xs (some _) => ⟨(xs.drop pos).take r, false, false⟩
   | .inf f => ⟨(List.range r).map (fun i => f (pos + i)), false, false⟩
 
+/-! ### several pipelines, one source object
+
+  The steps of a caller who hands ONE source object to several pipelines, one after the
+  other: separate `glom` calls, or the values of one dict spec (evaluated in order).
+  `take k` creates the iterator of its pipe at its first use, takes `k` items and leaves
+  it suspended (`live`), to be resumed by a later `take` on the same pipe; `all` / `first`
+  run a fresh iterator to their end.  The only thing the steps share is the position of
+  the source.  The sequence ends at the first exception. -/
+
+inductive Mode where
+  | take (k : Nat)
+  | all
+  | first (key : Fn)
+
+structure Step where
+  pipe : Nat
+  mode : Mode
+
+inductive StepOut where
+  | run (o : RunOut)                       -- take / all
+  | first (o : FirstOut) (pulls : Nat)
+
+def StepOut.pulls : StepOut → Nat
+  | .run o => o.pulls
+  | .first _ p => p
+
+/-- the step raised, or the model ran out of fuel: nothing follows -/
+def StepOut.ends : StepOut → Bool
+  | .run o => (match o.fin with | .raised _ => true | .oof => true | _ => false)
+  | .first o _ => (match o with | .raised _ => true | .oof => true | _ => false)
+
+def setAt {α : Type} (l : List α) (i : Nat) (x : α) : List α := l.set i x
+
+def modelSteps (fuel : Nat) (src : Src) (pipes : List (List Kind)) :
+    List Step → Nat → List (Option (List StageSt)) → List StepOut
+  | [], _, _ => []
+  | st :: rest, pos, live =>
+    let kinds := pipes.getD st.pipe []
+    match st.mode with
+    | .take k =>
+      let started : Built := match live.getD st.pipe none with
+        | some sts => .ok sts pos
+        | none => construct src fuel kinds [] pos
+      match started with
+      | .ok sts pos' =>
+        let r := takeK src fuel k sts pos' []
+        let o := StepOut.run r.1
+        o :: (if o.ends then [] else modelSteps fuel src pipes rest r.1.pulls (setAt live st.pipe (some r.2)))
+      | .err e pos' => [.run ⟨[], .raised e, pos'⟩]
+      | .oof => [.run ⟨[], .oof, pos⟩]
+    | .all =>
+      let o := StepOut.run (runAllFrom kinds src fuel pos)
+      o :: (if o.ends then [] else modelSteps fuel src pipes rest o.pulls live)
+    | .first key =>
+      let r := runFirstFrom kinds src fuel key pos
+      let o := StepOut.first r.1 r.2
+      o :: (if o.ends then [] else modelSteps fuel src pipes rest o.pulls live)
+
 /-! ### the `Iter` object and its builder methods -/
 
 structure Entry where
